@@ -129,7 +129,10 @@ fn mask_has(mask: u32, k: u32) -> bool {
 
 impl FnGhost {
     pub fn new(f: &'static FnInfo) -> FnGhost {
-        let modelled = f.flavour != Flavour::Thread || (f.mem.is_none() && (f.limit.is_none() || matches!(f.pol(), Pol::Fifo | Pol::Lru)));
+        // thread scope has no key listing: the ghost predicts evictions itself where the policy is FIFO / LRU (entry limit and
+        // memory budget alike: the oldest / least recently used entry goes first)
+        let fifo_lru = matches!(f.pol(), Pol::Fifo | Pol::Lru);
+        let modelled = f.flavour != Flavour::Thread || ((f.mem.is_none() || fifo_lru) && (f.limit.is_none() || fifo_lru));
         FnGhost { f, present: BTreeMap::new(), lookups: 0, hits: 0, seq: 0, modelled }
     }
 
@@ -561,6 +564,8 @@ impl Machine {
                             if !post.contains(&k) || removed != expect_removed || !post.is_subset(&cand) {
                                 out.findings.push(MFinding { property: "C20", monitor: "resumed-call-did-not-store-normally".into(), detail: format!("{}({k}) resumed and completed: keys {:?} -> {:?} with limit {:?}", f.fn_name, pre, post, f.limit) });
                             }
+                            // the store happens now, not when the call started: it is the most recent store / use
+                            self.g.seq += 1;
                             self.g.present.insert(k, GEntry { ver: 0, is_err: false, born_ns: now, stored_seq: self.g.seq, last_use: self.g.seq });
                         }
                         out.obs = format!("ppoll {slot}=ready{}{:?}", if executed { "!" } else { "" }, post);
@@ -822,6 +827,10 @@ fn call_step_on(g: &mut FnGhost, k: u32, now: u64, out: &mut StepOut, worker: Op
         if !executed && (had.is_none() || must_expire) {
             let (p, m): (&'static str, &str) = if must_expire { ("C06", "expired-served") } else { ("C01", "served-without-entry") };
             out.findings.push(MFinding { property: p, monitor: m.into(), detail: format!("{}({k}) did not run its body although no usable entry existed (entry present: {}, expired: {must_expire})", f.fn_name, had.is_some()) });
+            if f.flavour == Flavour::Thread && f.mem.is_some() && !must_expire {
+                // thread scope cannot be listed: an entry the memory budget had to evict (or never admit) shows by being served
+                out.findings.push(MFinding { property: "C05", monitor: "entry-survived-the-memory-budget".into(), detail: format!("{}({k}) was served from the cache although max_memory {:?} cannot hold that entry next to the ones stored since", f.fn_name, f.mem) });
+            }
         }
     }
     // ---------------- cache_if (C10): consulted once per execution with this call's key and result
@@ -994,7 +1003,26 @@ fn call_step_on(g: &mut FnGhost, k: u32, now: u64, out: &mut StepOut, worker: Op
         if should_store && !oversized {
             g.present.insert(k, GEntry { ver: new_ver, is_err: returned_err, born_ns: now, stored_seq: g.seq, last_use: g.seq });
             if pre_listed.is_none() && g.modelled {
-                // thread scope, FIFO / LRU model
+                // thread scope, FIFO / LRU model: first the memory budget, then the entry limit
+                if let Some(m) = f.mem {
+                    loop {
+                        let tot: usize = g.present.iter().map(|(kk, e)| g.footprint_of(*kk, e.ver, e.is_err)).sum();
+                        if tot <= m {
+                            break;
+                        }
+                        let victim = if f.pol() == Pol::Lru {
+                            g.present.iter().min_by_key(|(_, e)| e.last_use).map(|(kk, _)| *kk)
+                        } else {
+                            g.present.iter().min_by_key(|(_, e)| e.stored_seq).map(|(kk, _)| *kk)
+                        };
+                        match victim {
+                            Some(v) => {
+                                g.present.remove(&v);
+                            }
+                            None => break,
+                        }
+                    }
+                }
                 if let Some(n) = f.limit {
                     while g.present.len() > n {
                         let victim = if f.pol() == Pol::Lru {
@@ -1538,6 +1566,10 @@ pub fn suites_for(property: &str, thorough: bool) -> Vec<Suite> {
                 a.push(MOp::PDrop(0));
                 a.push(MOp::Call(1));
                 a.push(MOp::Call(2));
+                if f.limit == Some(2) {
+                    // a third key: what a resumed store did to the eviction order shows at the next overflow
+                    a.push(MOp::Call(3));
+                }
                 a.push(MOp::InvWith(0b0110));
                 if f.ttl.is_some() {
                     a.push(MOp::Tick);
